@@ -18,7 +18,8 @@ ID = "C14"
 LEVEL = "exploration"
 RULE = ("HDF5-domain table written by the library as HDF5 and JSON x axis x "
         "non-empty ID subset in drawn order x variant {from_hdf5(ids), "
-        "from_hdf5(ids, subset_with_metadata=False), parse_table(json, ids), "
+        "from_hdf5(ids, subset_with_metadata=False), parse_table(json, ids) "
+        "(also with nothing requested), parse_table(open HDF5 file, ids), "
         "subset-table -i, subset-table -j on the JSON text re-serialised "
         "compact / spaced / indented} plus requests naming an unknown ID; "
         "oracle = load everything, filter in the reference model, drop "
@@ -34,7 +35,7 @@ ASSUMPTIONS = ["'every JSON serialisation' = json.dumps of the same document "
 TMP = c01.TMP
 
 VARIANTS = ["from_hdf5", "from_hdf5_nomd", "parse_json", "cli_hdf5",
-            "cli_json"]
+            "cli_json", "parse_hdf5"]
 STYLES = ["library", "default", "indent1", "indent2", "indent4", "spaced",
           "compact"]
 
@@ -81,6 +82,8 @@ def cases(draw, tier):
             "style": draw(st.sampled_from(STYLES)),
             "unknown": draw(st.sampled_from([False] * 6 + ["fixed", "suffix",
                                                            "prefix", "case"])),
+            "empty_request": variant == "parse_json" and
+            draw(st.integers(0, 5)) == 0,
             "sub": variant.startswith("cli") and draw(st.sampled_from(SUB))}
 
 
@@ -143,6 +146,10 @@ def check(case, rec):
         chosen = [x for x, k in zip(ids, mk) if k]
         chosen = [chosen[i] for i in
                   ops.perm_from_key(len(chosen), case["order"])]
+        if case.get("empty_request") and not case["unknown"]:
+            # nothing requested (the JSON route is a filter: nothing is kept)
+            chosen = []
+            rec.cls("empty-request")
         request = list(chosen)
         if case["unknown"]:
             # an ID that is not in the file: unrelated, or a near miss of an
@@ -162,7 +169,8 @@ def check(case, rec):
             request.insert(len(request) // 2, cand)
             rec.cls("unknown-id-request:%s" % case["unknown"])
         exp = ref.filter_ids(axis, chosen)
-        drops = variant in ("from_hdf5", "parse_json", "cli_hdf5")
+        drops = variant in ("from_hdf5", "parse_json", "cli_hdf5",
+                            "parse_hdf5")
         exp_dropped = exp.take(other_axis, exp.nonempty_idx(other_axis))
         left_zero = len(exp_dropped.ids(other_axis)) < len(exp.ids(other_axis))
         if drops:
@@ -179,6 +187,10 @@ def check(case, rec):
             if variant == "parse_json":
                 return parse_biom_table(io.StringIO(jtext), ids=request,
                                         axis=axis)
+            if variant == "parse_hdf5":
+                # the general entry point, given an open HDF5 file
+                with h5py.File(h5p, "r") as f:
+                    return parse_biom_table(f, ids=request, axis=axis)
             idp = os.path.join(d, "ids.txt")
             with open(idp, "w", encoding="utf8") as f:
                 # (the last line may or may not end with a newline)
